@@ -52,40 +52,49 @@ func runAdapter(c adapterCase) (o outcome) {
 	var want []int
 	var wantSeen []int
 	a, b := c.Bound, c.Ret
-	r := func(i int) int { return b[i] }
+	off := 0
+	r := func(i int) int { return b[i] + off }
+	var inst func(...int) []int // the adapter instance, where it can be called again
 	p, stack := vlib.Try(func() {
 		switch c.name() {
 		case "CurryParam1ForSlice1":
 			wantSeen, want = append(append([]int{}, a...), c.Args...), c.Ret[:1]
 			f := fpgo.CurryParam1ForSlice1(func(x int, xs []int) int { rec(append([]int{x}, xs...)...); return r(0) }, a[0])
-			got = []int{f(c.Args...)}
+			inst = func(xs ...int) []int { return []int{f(xs...)} }
+			got = inst(c.Args...)
 		case "CurryParam1":
 			wantSeen, want = append(append([]int{}, a...), c.Args...), c.Ret[:1]
 			f := fpgo.CurryParam1(func(x int, xs ...int) int { rec(append([]int{x}, xs...)...); return r(0) }, a[0])
-			got = []int{f(c.Args...)}
+			inst = func(xs ...int) []int { return []int{f(xs...)} }
+			got = inst(c.Args...)
 		case "CurryParam2":
 			wantSeen, want = append(append([]int{}, a...), c.Args...), c.Ret[:1]
 			f := fpgo.CurryParam2(func(x, y int, xs ...int) int { rec(append([]int{x, y}, xs...)...); return r(0) }, a[0], a[1])
-			got = []int{f(c.Args...)}
+			inst = func(xs ...int) []int { return []int{f(xs...)} }
+			got = inst(c.Args...)
 		case "CurryParam3":
 			wantSeen, want = append(append([]int{}, a...), c.Args...), c.Ret[:1]
 			f := fpgo.CurryParam3(func(x, y, z int, xs ...int) int { rec(append([]int{x, y, z}, xs...)...); return r(0) }, a[0], a[1], a[2])
-			got = []int{f(c.Args...)}
+			inst = func(xs ...int) []int { return []int{f(xs...)} }
+			got = inst(c.Args...)
 		case "CurryParam4":
 			wantSeen, want = append(append([]int{}, a...), c.Args...), c.Ret[:1]
 			f := fpgo.CurryParam4(func(x, y, z, u int, xs ...int) int { rec(append([]int{x, y, z, u}, xs...)...); return r(0) }, a[0], a[1], a[2], a[3])
-			got = []int{f(c.Args...)}
+			inst = func(xs ...int) []int { return []int{f(xs...)} }
+			got = inst(c.Args...)
 		case "CurryParam5":
 			wantSeen, want = append(append([]int{}, a...), c.Args...), c.Ret[:1]
 			f := fpgo.CurryParam5(func(x, y, z, u, v int, xs ...int) int { rec(append([]int{x, y, z, u, v}, xs...)...); return r(0) }, a[0], a[1], a[2], a[3], a[4])
-			got = []int{f(c.Args...)}
+			inst = func(xs ...int) []int { return []int{f(xs...)} }
+			got = inst(c.Args...)
 		case "CurryParam6":
 			wantSeen, want = append(append([]int{}, a...), c.Args...), c.Ret[:1]
 			f := fpgo.CurryParam6(func(x, y, z, u, v, w int, xs ...int) int {
 				rec(append([]int{x, y, z, u, v, w}, xs...)...)
 				return r(0)
 			}, a[0], a[1], a[2], a[3], a[4], a[5])
-			got = []int{f(c.Args...)}
+			inst = func(xs ...int) []int { return []int{f(xs...)} }
+			got = inst(c.Args...)
 
 		case "MakeVariadicParam1":
 			wantSeen, want = c.Args[:1], c.Ret
@@ -108,28 +117,34 @@ func runAdapter(c adapterCase) (o outcome) {
 
 		case "MakeVariadicReturn1":
 			wantSeen, want = c.Args, c.Ret[:1]
-			got = fpgo.MakeVariadicReturn1(func(xs ...int) int { rec(xs...); return r(0) })(c.Args...)
+			inst = fpgo.MakeVariadicReturn1(func(xs ...int) int { rec(xs...); return r(0) })
+			got = inst(c.Args...)
 		case "MakeVariadicReturn2":
 			wantSeen, want = c.Args, c.Ret[:2]
-			got = fpgo.MakeVariadicReturn2(func(xs ...int) (int, int) { rec(xs...); return r(0), r(1) })(c.Args...)
+			inst = fpgo.MakeVariadicReturn2(func(xs ...int) (int, int) { rec(xs...); return r(0), r(1) })
+			got = inst(c.Args...)
 		case "MakeVariadicReturn3":
 			wantSeen, want = c.Args, c.Ret[:3]
-			got = fpgo.MakeVariadicReturn3(func(xs ...int) (int, int, int) { rec(xs...); return r(0), r(1), r(2) })(c.Args...)
+			inst = fpgo.MakeVariadicReturn3(func(xs ...int) (int, int, int) { rec(xs...); return r(0), r(1), r(2) })
+			got = inst(c.Args...)
 		case "MakeVariadicReturn4":
 			wantSeen, want = c.Args, c.Ret[:4]
-			got = fpgo.MakeVariadicReturn4(func(xs ...int) (int, int, int, int) { rec(xs...); return r(0), r(1), r(2), r(3) })(c.Args...)
+			inst = fpgo.MakeVariadicReturn4(func(xs ...int) (int, int, int, int) { rec(xs...); return r(0), r(1), r(2), r(3) })
+			got = inst(c.Args...)
 		case "MakeVariadicReturn5":
 			wantSeen, want = c.Args, c.Ret[:5]
-			got = fpgo.MakeVariadicReturn5(func(xs ...int) (int, int, int, int, int) {
+			inst = fpgo.MakeVariadicReturn5(func(xs ...int) (int, int, int, int, int) {
 				rec(xs...)
 				return r(0), r(1), r(2), r(3), r(4)
-			})(c.Args...)
+			})
+			got = inst(c.Args...)
 		case "MakeVariadicReturn6":
 			wantSeen, want = c.Args, c.Ret[:6]
-			got = fpgo.MakeVariadicReturn6(func(xs ...int) (int, int, int, int, int, int) {
+			inst = fpgo.MakeVariadicReturn6(func(xs ...int) (int, int, int, int, int, int) {
 				rec(xs...)
 				return r(0), r(1), r(2), r(3), r(4), r(5)
-			})(c.Args...)
+			})
+			got = inst(c.Args...)
 
 		case "MakeNumericReturnForVariadicParamReturnBool1", "MakeNumericReturnForSliceParamReturnBool1", "MakeNumericReturnForParam1ReturnBool1":
 			wantSeen = c.Args
@@ -189,6 +204,32 @@ func runAdapter(c adapterCase) (o outcome) {
 	}
 	if !equalInts(got, want) {
 		o.failKey, o.failMsg = key+"/result", fmt.Sprintf("%s bound=%v args=%v: result %v, want %v", c.name(), c.Bound, c.Args, got, want)
+		return
+	}
+	// the same instance again: its callee now returns other values; the second result is the second
+	// call's, and the FIRST result, which the caller still holds, is what it was (and stays so when the
+	// caller overwrites the second one)
+	if inst != nil {
+		off = 100
+		var got2 []int
+		if p, stack := vlib.Try(func() { got2 = inst(c.Args...) }); p != nil {
+			o.failKey, o.failMsg = key+"/panic", fmt.Sprintf("%s: second call of the same instance panicked: %v\n%s", c.name(), p, firstFrames(stack))
+			return
+		}
+		want2 := make([]int, len(want))
+		for i := range want {
+			want2[i] = want[i] + 100
+		}
+		if !equalInts(got2, want2) {
+			o.failKey, o.failMsg = key+"/result", fmt.Sprintf("%s bound=%v args=%v: second call of the same instance returned %v, want %v", c.name(), c.Bound, c.Args, got2, want2)
+			return
+		}
+		for i := range got2 {
+			got2[i] = -7
+		}
+		if !equalInts(got, want) {
+			o.failKey, o.failMsg = key+"/result-retention", fmt.Sprintf("%s bound=%v args=%v: the first result was %v; after a second call of the same instance (and the caller overwriting that second result) it reads %v", c.name(), c.Bound, c.Args, want, got)
+		}
 	}
 	return
 }
